@@ -80,13 +80,18 @@ theorem C16_singleton_binds (st : State) (x : Nat) (d : FD) (hd : FD.WF d) :
   refine ⟨fun n h => ⟨by simp only [resolveStorable, h], ?_⟩, fun h => by simp only [resolveStorable, h]⟩
   exact ((FD.singletonValue_spec d hd n).1 h n).2 rfl
 
-/-! ### the global theorems (Proofs/FDGlobal, FDTop, FDExact): through the re-entrant propagation loop -/
+/-! ### the global theorems (Proofs/FDGlobal, FDDistinct, FDRun, FDTop, FDExact): through the re-entrant
+    propagation loop.  They are stated for BOTH modes of Spec/FDSem.lean (`[Mode]`): in the strict mode
+    `FAtom.OK` excludes `distinctfd` and no panic site is reachable; in the lax mode `distinctfd` on a proper
+    list term is allowed (`C16_distinctfd_*` below instantiate it). -/
+section Global
+variable [Mode]
 
 /-- SOUNDNESS OF THE WHOLE MACHINE, every posting order, operand aliasing, domain sign and hash-iteration
     order: whatever valuation the state reached after posting a conjunction of `infd` / `ltefd` / `plusfd` /
     `minusfd` / `timesfd` / `diseqfd` / `==` / `!=` / CLP(Z) atoms still describes, it satisfies EVERY posted
     atom — each constrained variable is an integer of its domain and every constraint holds.
-    (Fragment: all kinds but `distinctfd`; `FAtom.OK`.) -/
+    (`FAtom.OK`: well-formed domains; `distinctfd` in the lax mode, on a proper list term.) -/
 theorem C16_state_sound {ord : Order} (ho : OrderOK ord) (n : Nat) (as : List FAtom) (hok : ∀ a ∈ as, a.OK)
     (st' : State) (h : postAllF ord (State.empty n) as = .ok st') (γ : Subst) (hγ : Sem NoI γ st') :
     ∀ a ∈ as, a.Sat γ := (fd_exact_ok ho n as hok st' h γ).1 hγ
@@ -98,14 +103,14 @@ theorem C16_answer_sound {ord : Order} (ho : OrderOK ord) (n : Nat) (as : List F
     (st' : State) (h : postAllF ord (State.empty n) as = .ok st') (hs : st'.store = []) (hd : st'.dstore = []) :
     ∀ a ∈ as, a.Sat st'.σ := fd_closed ho n as hok st' h hs hd
 
-/-- one `c.run` of ANY propagator (all kinds but distinctfd), at any re-run depth, over any nested
+/-- one `c.run` of ANY propagator (`distinctfd` and its worker included, in the lax mode), at any re-run depth, over any nested
     `run_constraints` that keeps the solution set: the resulting state describes exactly the valuations of
     the state it started from that satisfy the constraint (`Ref`), and a failure refutes it -/
 theorem C16_run_exact {rc : State → Res State} (hrc : RcOK rc) (hrs : RcSem rc) {ord : Order} (ho : OrderOK ord)
     (k i : Nat) (c : Cst) (st : State) (I : Nat → Prop) (hI : IOK I st) (w : WFS st) (f : Fr i st)
-    (hd : c.isDiseq = false) (hnd : c.isDistinct = false) :
+    (hd : c.isDiseq = false) (hok : CstOK c) :
     Ref I (fun γ => CstSem γ c) st (runCst rc ord k i c st) :=
-  runCst_selfSem hrc hrs ho k I i c st hI w f hd hnd
+  runCst_selfSem hrc hrs ho k I i c st hI w f hd hok
 
 /-- `State::run_constraints` at every nesting depth keeps the described valuations exactly; a failure means
     the state described none -/
@@ -129,7 +134,43 @@ theorem C16_program_sound {ord : Order} (ho : OrderOK ord) (dfs : Call → State
     exact ⟨path, hpth, fun γ hγ => (hsem γ).1 hγ⟩⟩
 
 
-/-! ### no stored propagator is ground (the repaired D11 behaviour, as an invariant) -/
+end Global
+
+/-! ### `distinctfd` (lax mode) -/
+
+/-- SOUNDNESS WITH `distinctfd`: the same statement for programs that also post `distinctfd` on proper list
+    terms (of variables, integers or anything else): whatever valuation the reached state still describes
+    makes the elements of every such list pairwise different integers, and satisfies every other atom. -/
+theorem C16_distinctfd_state_sound {ord : Order} (ho : OrderOK ord) (n : Nat) (as : List FAtom)
+    (hok : ∀ a ∈ as, @FAtom.OK Mode.lax a)
+    (st' : State) (h : postAllF ord (State.empty n) as = .ok st') (γ : Subst) (hγ : Sem NoI γ st') :
+    ∀ a ∈ as, a.Sat γ := @C16_state_sound Mode.lax ord ho n as hok st' h γ hγ
+
+/-- … and an answer state with nothing pending reports a solution -/
+theorem C16_distinctfd_answer_sound {ord : Order} (ho : OrderOK ord) (n : Nat) (as : List FAtom)
+    (hok : ∀ a ∈ as, @FAtom.OK Mode.lax a)
+    (st' : State) (h : postAllF ord (State.empty n) as = .ok st') (hs : st'.store = []) (hd : st'.dstore = []) :
+    ∀ a ∈ as, a.Sat st'.σ := @C16_answer_sound Mode.lax ord ho n as hok st' h hs hd
+
+/-- the three panic sites of `distinctfd` (`Invalid constant constraint`, `Invalid value`, `Invalid LTerm`:
+    a list element that is, or has become, something other than an integer) are the ONLY panic sites the
+    state machine can reach, and it reaches them only when the posted atoms have NO solution: a panic never
+    hides an answer -/
+theorem C16_distinctfd_panic_is_failure {ord : Order} (ho : OrderOK ord) (n : Nat) (as : List FAtom)
+    (hok : ∀ a ∈ as, @FAtom.OK Mode.lax a) (s : String) (h : postAllF ord (State.empty n) as = .panic s) :
+    DP s ∧ ¬ ∃ γ, ∀ a ∈ as, a.Sat γ := (@fd_panic_refuted Mode.lax ord ho n as hok s h).2
+
+/-- the meaning of `distinctfd` on a proper list: its elements denote pairwise different integers -/
+theorem C16_distinctfd_meaning (γ : Subst) (l : List Term) :
+    CstSem γ (.distinctfd (Term.ofList l)) ↔
+      ((∀ e ∈ l, ∃ k, apply γ e = Term.num k) ∧ (l.map (apply γ)).Nodup) := by
+  rw [cstSem_d1_iff]
+  exact ⟨fun a => ⟨a.1, a.2.1⟩, fun a => ⟨a.1, a.2, fun _ _ _ _ h => nomatch h⟩⟩
+
+/-! ### no stored propagator is ground (the repaired D11 behaviour, as an invariant; strict mode:
+    the worker of `distinctfd` stays in the store for good) -/
+section Strict
+attribute [local instance] Mode.strict
 
 /-- LIVENESS: in every state reached by posting atoms (any order, any hash-iteration order) no stored
     propagator has all its operands ground: a constraint whose operands have all become numbers — through
@@ -163,7 +204,10 @@ theorem C16_ground_answer_sound {ord : Order} (ho : OrderOK ord) (n : Nat) (as :
       cases this
   exact fd_closed ho n as hok st' h hs hd
 
+end Strict
+
 section Examples
+attribute [local instance] Mode.lax
 /-- D11 witness (`x in 1..=3, plusfd(x,x,x)` has no answer), D12 witness (`x == 1, y == 1, distinctfd([x,y])`)
     and a satisfiable program, decided by the model's state operations -/
 private def x : Term := .var 0
@@ -189,7 +233,7 @@ private def prog16 : List FAtom :=
 example : ∀ a ∈ prog16, a.OK := by
   intro a ha
   simp only [prog16, List.mem_cons, List.not_mem_nil, or_false] at ha
-  rcases ha with rfl | rfl | rfl | rfl | rfl <;> simp [FAtom.OK, FD.WF, Cst.isDistinct]
+  rcases ha with rfl | rfl | rfl | rfl | rfl <;> simp [FAtom.OK, FD.WF, CstOK]
 example : (match postAllF Order.default (State.empty 3) prog16 with
     | .ok st => st.store.isEmpty && st.dstore.isEmpty && (st.σ 0 == num 1) && (st.σ 1 == num 1) && (st.σ 2 == num 2)
     | _ => false) = true := by decide
@@ -197,8 +241,28 @@ example : (match postAllF Order.default (State.empty 3) prog16 with
 private def fprog16 : FProg :=
   .conj (.atom (.dom (.var 0) (.interval 0 3)))
     (.alt (.atom (.cst (.ltefd (.var 0) (num 1)))) (.fresh (.atom (.cst (.diseqfd (.var 0) (num 0))))))
-example : fprog16.OK := by simp [fprog16, FProg.OK, FAtom.OK, FD.WF, Cst.isDistinct]
+example : fprog16.OK := by simp [fprog16, FProg.OK, FAtom.OK, FD.WF, CstOK]
 example : fprog16.paths.length = 2 := by decide
+/-- non-vacuity of the `distinctfd` theorems: x, y, z in 1..=3, all different, x <= 1 and z <= 2 meets `FAtom.OK`
+    in the lax mode, succeeds, and propagation alone (exclusion of the collected constants from the remaining
+    domains, twice re-entering `run_constraints`) finds the solution x = 1, y = 3, z = 2 with only the worker
+    constraint left in the store -/
+private def prog16d : List FAtom :=
+  [.dom (.var 0) (.interval 1 3), .dom (.var 1) (.interval 1 3), .dom (.var 2) (.interval 1 3),
+   .cst (.distinctfd (Term.ofList [.var 0, .var 1, .var 2])), .cst (.ltefd (.var 0) (num 1)), .cst (.ltefd (.var 2) (num 2))]
+example : ∀ a ∈ prog16d, a.OK := by
+  intro a ha
+  simp only [prog16d, List.mem_cons, List.not_mem_nil, or_false] at ha
+  rcases ha with rfl | rfl | rfl | rfl | rfl | rfl <;> simp [FAtom.OK, FD.WF, CstOK, Mode.lax]
+  exact ⟨trivial, [Term.var 0, Term.var 1, Term.var 2], rfl⟩
+example : (match postAllF Order.default (State.empty 3) prog16d with
+    | .ok st => (st.σ 0 == num 1) && (st.σ 1 == num 3) && (st.σ 2 == num 2) && st.dstore.isEmpty && st.store.length == 1
+    | _ => false) = true := by decide
+/-- … and a list element bound to a non-integer reaches a panic site, in a program without solution -/
+example : (match postAllF Order.default (State.empty 2)
+      [.eq (.var 0) (.cons (num 1) .nil), .cst (.distinctfd (Term.ofList [.var 0, .var 1]))] with
+    | .panic s => s == "distinctfd-term"
+    | _ => false) = true := by decide
 end Examples
 
 end Pv
